@@ -328,70 +328,77 @@ def mem_classes(rnd):
     regs = {8: ["cl", "r9b", "dh", "sil"], 16: ["cx", "r9w"], 32: ["ecx", "r9d"], 64: ["rcx", "r9"]}
     for w in (8, 16, 32, 64):
         for reg in regs[w]:
-            for mn in ("add", "cmp", "mov", "xor"):
+            for mn in ALU + ["mov"]:
                 add("alu_rm", mn, w, "opt", lambda M, E, k, mn=mn, reg=reg, w=w: ("%s %s, %s%s" % (mn, reg, k, M), [R(reg), E(w)]), reg=reg)
                 add("alu_mr", mn, w, "opt", lambda M, E, k, mn=mn, reg=reg, w=w: ("%s %s%s, %s" % (mn, k, M, reg), [E(w), R(reg)]), reg=reg)
             add("test_mr", "test", w, "opt", lambda M, E, k, reg=reg, w=w: ("test %s%s, %s" % (k, M, reg), [E(w), R(reg)]), reg=reg)
             add("xchg_rm", "xchg", w, "opt", lambda M, E, k, reg=reg, w=w: ("xchg %s, %s%s" % (reg, k, M), [R(reg), E(w)]), reg=reg)
-        for mn in ("add", "sub", "cmp", "mov", "test"):
+        for mn in ALU + ["mov", "test"]:
             add("alu_mi", mn, w, "req", lambda M, E, k, mn=mn, w=w: ("%s %s%s, 5" % (mn, k, M), [E(w), I(5)]), imm=5)
-        for mn in UNARY:
+        for mn in UNARY:  # (one-operand imul has no memory form in the library)
             add("unary_m", mn, w, "req", lambda M, E, k, mn=mn, w=w: ("%s %s%s" % (mn, k, M), [E(w)]))
-        for mn in ("shl", "sar", "shr"):
+        for mn in SHIFT_CL:
             add("shift_m1", mn, w, "req", lambda M, E, k, mn=mn, w=w: ("%s %s%s, 1" % (mn, k, M), [E(w), I(1)]), imm=1)
             add("shift_mi", mn, w, "req", lambda M, E, k, mn=mn, w=w: ("%s %s%s, 5" % (mn, k, M), [E(w), I(5)]), imm=5)
             add("shift_mcl", mn, w, "req", lambda M, E, k, mn=mn, w=w: ("%s %s%s, cl" % (mn, k, M), [E(w), R("cl")]))
+        for mn in ("rcr",):  # (ror has no memory form in the library)
+            add("shift_mi", mn, w, "req", lambda M, E, k, mn=mn, w=w: ("%s %s%s, 5" % (mn, k, M), [E(w), I(5)]), imm=5)
     for w in (16, 32, 64):
         for reg in regs[w]:
             add("lea", "lea", None, "none", lambda M, E, k, reg=reg: ("lea %s, %s" % (reg, M), [R(reg), E(None)]), reg=reg)
-            add("cmov_rm", "cmovne", w, "opt", lambda M, E, k, reg=reg, w=w: ("cmovne %s, %s%s" % (reg, k, M), [R(reg), E(w)]), reg=reg)
+            for mn in CMOV:
+                add("cmov_rm", mn, w, "opt", lambda M, E, k, mn=mn, reg=reg, w=w: ("%s %s, %s%s" % (mn, reg, k, M), [R(reg), E(w)]), reg=reg)
             add("imul_rm", "imul", w, "opt", lambda M, E, k, reg=reg, w=w: ("imul %s, %s%s" % (reg, k, M), [R(reg), E(w)]), reg=reg)
             add("imul_rmi", "imul", w, "opt", lambda M, E, k, reg=reg, w=w: ("imul %s, %s%s, 5" % (reg, k, M), [R(reg), E(w), I(5)]), reg=reg, imm=5)
             add("movzx_rm8", "movzx", w, "req8", lambda M, E, k, reg=reg: ("movzx %s, byte %s" % (reg, M), [R(reg), E(8)]), reg=reg)
-            add("shld_mri", "shld", w, "opt", lambda M, E, k, reg=reg, w=w: ("shld %s%s, %s, 5" % (k, M, reg), [E(w), R(reg), I(5)]), reg=reg, imm=5)
+            for mn in ("shld", "shrd"):
+                add("shld_mri", mn, w, "opt", lambda M, E, k, mn=mn, reg=reg, w=w: ("%s %s%s, %s, 5" % (mn, k, M, reg), [E(w), R(reg), I(5)]), reg=reg, imm=5)
             add("shld_mrcl", "shld", w, "opt", lambda M, E, k, reg=reg, w=w: ("shld %s%s, %s, cl" % (k, M, reg), [E(w), R(reg), R("cl")]), reg=reg)
     for reg in ("ecx", "r9d", "rcx", "r9"):
         add("movzx_rm16", "movzx", REGW[reg], "req16", lambda M, E, k, reg=reg: ("movzx %s, word %s" % (reg, M), [R(reg), E(16)]), reg=reg)
     for w in (32, 64):
         for reg in regs[w]:
-            add("adx_rm", "adcx", w, "opt", lambda M, E, k, reg=reg, w=w: ("adcx %s, %s%s" % (reg, k, M), [R(reg), E(w)]), reg=reg)
-            for mn in ("bextr", "shlx"):
+            for mn in ("adcx", "adox"):
+                add("adx_rm", mn, w, "opt", lambda M, E, k, mn=mn, reg=reg, w=w: ("%s %s, %s%s" % (mn, reg, k, M), [R(reg), E(w)]), reg=reg)
+            for mn in BMI_RMV:
                 add("bmi_rmr", mn, w, "opt", lambda M, E, k, mn=mn, reg=reg, w=w: ("%s %s, %s%s, %s" % (mn, reg, k, M, reg), [R(reg), E(w), R(reg)]), reg=reg)
             add("bmi_rrm", "mulx", w, "opt", lambda M, E, k, reg=reg, w=w: ("mulx %s, %s, %s%s" % (reg, reg, k, M), [R(reg), R(reg), E(w)]), reg=reg)
             add("rorx_rmi", "rorx", w, "opt", lambda M, E, k, reg=reg, w=w: ("rorx %s, %s%s, 5" % (reg, k, M), [R(reg), E(w), I(5)]), reg=reg, imm=5)
     add("push_m", "push", 64, "none64", lambda M, E, k: ("push %s%s" % (k, M), [E(64)]))
     add("jmp_m", "jmp", 64, "none64", lambda M, E, k: ("jmp %s%s" % (k, M), [E(64)]))
     add("call_m", "call", 64, "none64", lambda M, E, k: ("call %s%s" % (k, M), [E(64)]))
-    for mn in ("sete", "setnbe"):
+    for mn in SETCC:
         add("setcc_m", mn, 8, "none8", lambda M, E, k, mn=mn: ("%s %s%s" % (mn, k, M), [E(8)]))
     for mn in ("prefetcht0", "prefetchnta", "clflush"):
         add("hint_m", mn, 8, "none8", lambda M, E, k, mn=mn: ("%s %s%s" % (mn, k, M), [E(8)]))
     for x in ("xmm1", "xmm9"):
-        for mn in ("paddb", "pxor", "pmulld", "movntdqa"):
+        for mn in [m for m in SSE_MMX if m != "pand"] + SSE_ONLY_RM + ["movntdqa"]:  # (pand xmm, m128 is not a form the library has)
             add("sse_vm", mn, 128, "nonev", lambda M, E, k, mn=mn, x=x: ("%s %s, %s" % (mn, x, M), [R(x), E(128)]), reg=x)
         add("movd_vm", "movd", 32, "nonev", lambda M, E, k, x=x: ("movd %s, %s" % (x, M), [R(x), E(32)]), reg=x)
         add("movd_mv", "movd", 32, "nonev", lambda M, E, k, x=x: ("movd %s, %s" % (M, x), [E(32), R(x)]), reg=x)
         add("movq_vm", "movq", 64, "nonev", lambda M, E, k, x=x: ("movq %s, %s" % (x, M), [R(x), E(64)]), reg=x)
         add("movq_mv", "movq", 64, "nonev", lambda M, E, k, x=x: ("movq %s, %s" % (M, x), [E(64), R(x)]), reg=x)
-        for mn in ("vpaddb", "vpmulld"):
+        for mn in AVX_BOTH:
             add("avx_vvm", mn, 128, "nonev", lambda M, E, k, mn=mn, x=x: ("%s %s, %s, %s" % (mn, x, x, M), [R(x), R(x), E(128)]), reg=x)
         for mn in AVX_MOV:
             add("avx_mov_vm", mn, 128, "nonev", lambda M, E, k, mn=mn, x=x: ("%s %s, %s" % (mn, x, M), [R(x), E(128)]), reg=x)
             add("avx_mov_mv", mn, 128, "nonev", lambda M, E, k, mn=mn, x=x: ("%s %s, %s" % (mn, M, x), [E(128), R(x)]), reg=x)
     for y in ("ymm1", "ymm9"):
-        for mn in ("vpaddb", "vaddpd", "vpermd"):
+        for mn in AVX_BOTH + AVX_256_ONLY:
             add("avx_yym", mn, 256, "nonev", lambda M, E, k, mn=mn, y=y: ("%s %s, %s, %s" % (mn, y, y, M), [R(y), R(y), E(256)]), reg=y)
-        add("avx_yymi", "vperm2i128", 256, "nonev", lambda M, E, k, y=y: ("vperm2i128 %s, %s, %s, 0x31" % (y, y, M), [R(y), R(y), E(256), I(0x31)]), reg=y, imm=0x31)
+        for mn in AVX_IMM:
+            add("avx_yymi", mn, 256, "nonev", lambda M, E, k, mn=mn, y=y: ("%s %s, %s, %s, 0x31" % (mn, y, y, M), [R(y), R(y), E(256), I(0x31)]), reg=y, imm=0x31)
         for mn in AVX_MOV:
             add("avx_mov_ym", mn, 256, "nonev", lambda M, E, k, mn=mn, y=y: ("%s %s, %s" % (mn, y, M), [R(y), E(256)]), reg=y)
             add("avx_mov_my", mn, 256, "nonev", lambda M, E, k, mn=mn, y=y: ("%s %s, %s" % (mn, M, y), [E(256), R(y)]), reg=y)
     for mreg in ("mm1", "mm7"):
-        for mn in ("paddb", "pxor"):
+        for mn in SSE_MMX:
             add("mmx_rm", mn, 64, "nonev", lambda M, E, k, mn=mn, r=mreg: ("%s %s, %s" % (mn, r, M), [R(r), E(64)]), reg=mreg)
         add("movntq", "movntq", 64, "nonev", lambda M, E, k, r=mreg: ("movntq %s, %s" % (M, r), [E(64), R(r)]), reg=mreg)
     return C
 
 
+SWEEP_SHAPES = [("rbx", None, None, "is", None, True), ("r9", "rcx", 2, "is", 0x10, True), ("rsp", "r13", 8, "is", -0x80, True), ("ebx", None, None, "is", 0x1000, False)]
 STRUCTURAL = {"lea", "alu_rm", "alu_mi", "sse_vm", "avx_vvm", "bmi_rmr", "push_m", "movd_mv"}
 
 
@@ -415,6 +422,12 @@ def gen_mem(tier_full, rnd, classes=None, per_class=None):
             ms = [m for m in members if not (ext and m.get("reg") in R8H)] or members
             c = rnd.choice(ms)
             out.append(mem_case(c, base, index, scale, order, disp, hexdisp, rnd))
+        # every member (mnemonic x width x register) of the class at least under a few fixed shapes, whatever the sampling above chose
+        for c in members:
+            for (base, index, scale, order, disp, hexdisp) in SWEEP_SHAPES:
+                if c.get("reg") in R8H and ((base and regnum(base) >= 8) or (index and regnum(index) >= 8)):
+                    continue
+                out.append(mem_case(c, base, index, scale, order, disp, hexdisp, rnd))
     return out
 
 
